@@ -13,8 +13,9 @@ import Nstd.Server.LemmasC14F
    * ready_eventually_dispatched: under a fair kernel every registered ready socket is eventually
      dispatched (the model gives the safety half: one buffered event per poll, FIFO, pruned only by
      set/remove — `dispatch_only_registered_kinds`, `buffered_events_are_registered`).
-   * interrupt() from a second thread is modelled as one atomic action (flag + event descriptor);
-     the window between the two writes is argued in the notes, not modelled.
+   * interrupt() from a second thread is modelled as two moves (`intrBegin`: test-and-set of the flag under
+     the mutex, `intrEnd`: write of the event descriptor) that interleave with the steps of run() in any
+     way; weak-memory effects on the unlocked read of `_interrupted` in run() are not modelled.
    * that activation happens no LATER than the kernel's time-out granularity allows is a statement
      about real time; the model proves `poll_timeout_is_next_due` (run never sleeps past a due time).
 -/
@@ -267,7 +268,8 @@ theorem failed_write_ready_calls_onClosed (s : St) (i : Id) (c : ClientS) (o : O
 
 /-- whenever the interrupted flag is set the event descriptor is signalled (so a level-triggered
     kernel reports it at the next epoll_wait) -/
-theorem interrupt_signals_eventfd (ms : List Move) : (reach ms).interrupted = true → 0 < (reach ms).eventfd :=
+theorem interrupt_signals_eventfd (ms : List Move) :
+    (reach ms).interrupted = true → 0 < (reach ms).eventfd + (reach ms).pendingEfd :=
   invI_reach ms
 
 /-- run_returns_only_on_interrupt: a step leaves run() only by consuming a pending interrupt -/
@@ -289,7 +291,7 @@ theorem interrupt_never_lost (ms : List Move) (m : Move) (h : (reach ms).interru
     kernel must: its counter is non-zero) makes run() return -/
 theorem interrupt_returns_run (ms : List Move) (inp : PollIn) (o : Outcome) (now tmo : Int)
     (hpc : (reach ms).pc = .poll now tmo) (hsel : (reach ms).selected = [])
-    (hi : (reach ms).interrupted = true) (he : inp.eventfd = true) :
+    (hi : (reach ms).interrupted = true) (hdone : (reach ms).pendingEfd = 0) (he : inp.eventfd = true) :
     (step (reach ms) inp o).1.pc = .idle ∧ (step (reach ms) inp o).2 = [Ev.returned] := by
   have hfd : (reach ms).eventfd ≠ 0 := by have := interrupt_signals_eventfd ms hi; omega
   have hp : (pollStep (reach ms) inp).2 = none ∧ (pollStep (reach ms) inp).1.interrupted = true := by
@@ -301,6 +303,19 @@ theorem interrupt_returns_run (ms : List Move) (inp : PollIn) (o : Outcome) (now
   rw [hp1]
   unfold dispatch
   simp [hp2]
+
+/-- interrupt() from another thread, first half: the flag is set, whatever run() is doing -/
+theorem interrupt_begin_sets_flag (ms : List Move) : (move (reach ms) .intrBegin).interrupted = true := by
+  simp only [move]
+  split
+  · assumption
+  · rfl
+
+/-- … second half: the event descriptor is signalled, so the pending count drops and `eventfd` is non-zero -/
+theorem interrupt_end_signals (ms : List Move) (h : (reach ms).pendingEfd ≠ 0) :
+    0 < (move (reach ms) .intrEnd).eventfd ∧ (move (reach ms) .intrEnd).pendingEfd = (reach ms).pendingEfd - 1 := by
+  simp only [move, h, if_false]
+  exact ⟨Nat.succ_pos _, rfl⟩
 
 /-- interrupt() sets the flag (idempotently) -/
 theorem interrupt_sets_flag (s : St) : (applyAct s none .interrupt).interrupted = true := by
